@@ -91,6 +91,16 @@ func Harness_C19_claim_race() {
 	var e1, e2 error
 	verif_Spawn(func() { m1, e1 = r.CreateMapping(ctx, 1001, "app", "tunnox.net", "127.0.0.1", 8080) })
 	verif_Spawn(func() { m2, e2 = rB.CreateMapping(ctx, 1002, "app", "tunnox.net", "127.0.0.1", 9090) })
+	if verif_Bool() {
+		// a request for that host arrives while the claims are in flight: it is routed to one of the
+		// claimants or rejected - and looking must not change who owns the name
+		verif_Spawn(func() {
+			if got, err := rB.LookupByDomain(ctx, "app.tunnox.net"); err == nil {
+				verif_Assert("C19.race.lookup_in_flight", got != nil && (got.ClientID == 1001 || got.ClientID == 1002))
+			}
+		})
+		verif_Cover("C19.race.with_lookup")
+	}
 	verif_Quiesce()
 	verif_Assert("C19.race.at_most_one", !(e1 == nil && e2 == nil))
 	verif_Assert("C19.race.one_wins", e1 == nil || e2 == nil)
